@@ -6,6 +6,7 @@ import RasnModel.Driver.C15
 import RasnModel.Driver.C16
 import RasnModel.Driver.C17
 import RasnModel.Driver.Struct
+import RasnModel.Driver.Pipeline
 /- Line-protocol driver: one request per line, one canonical answer per line. -/
 
 def dispatch (line : String) : String :=
@@ -20,6 +21,7 @@ def dispatch (line : String) : String :=
   | some (.atom "c17report" :: args) => Driver.C17.handleReport args
   | some (.atom "struct" :: args) => Driver.Struct.handle args
   | some (.atom "recgraph" :: args) => Driver.Struct.handleRec args
+  | some (.atom "pipe" :: args) => Driver.Pipeline.handle args
   | some (.atom "ping" :: _) => "pong"
   | _ => "bad-op"
 
